@@ -27,7 +27,8 @@
 (*         multi-part, nested, mixed-dimension collections, empty and      *)
 (*         degenerate members)  x  every lattice point of -1..9            *)
 (*   line  every Line on (0..3)^2 (zero-length ones too)                   *)
-(*   tri   every Triangle on (0..2)^2 (all 729 vertex orders, flat ones)   *)
+(*   tri   every Triangle on (0..2)^2 (all vertex orders; flat ones only    *)
+(*         for interior_point; "tridegen" probes closest_point on them)    *)
 (*   rect  every Rect on (0..3)^2 (flat ones too)                          *)
 (*   ls3   every three-vertex LineString on (0..2)^2                       *)
 (*   pool  polygons enumerated by Gen_Poly (all simple lattice polygons    *)
